@@ -165,7 +165,7 @@ theorem RebIn.lens {o : Nat} {d : Nat} {i : Inner K (Node K V d)} {index : Nat} 
   have he := h.even
   have hc1 := h.cocc.2.1
   have hc2 := h.csmall
-  rw [count_eq] at hc2
+  rw [count_eqD] at hc2
   refine ⟨hp.1, hidk, by omega, by omega, by omega⟩
 
 theorem rebalance_borrowR (P : Params K) (o : Nat) {d : Nat} (i : Inner K (Node K V d)) (index : Nat)
@@ -181,7 +181,7 @@ theorem rebalance_borrowR (P : Params K) (o : Nat) {d : Nat} (i : Inner K (Node 
   obtain ⟨c', r', sm, hadopt, hsm, hidc, hidr, hcc', hcr', hpc, hpr, hrw⟩ :=
     adoptFromRight_rw child right hin.cocc.par hro.par (by omega) hnd
   have hrc := hro.1
-  simp only [count_eq] at hRc hcc' hcr'
+  simp only [count_eqD] at hRc hcc' hcr'
   have hk' : (i.kids.set index c').set (index + 1) r' = a ++ [c', r'] ++ b := by
     rw [hab, ← ha, form_set_pivot, form_set_next]; simp
   have hrw' : Rw [Node.id child, Node.id right] [(Node.id c', shallow c'), (Node.id r', shallow r')]
@@ -190,7 +190,7 @@ theorem rebalance_borrowR (P : Params K) (o : Nat) {d : Nat} (i : Inner K (Node 
     (Inner.mk i.id (i.runts.set (index + 1) sm) ((i.kids.set index c').set (index + 1) r'))
     a b [child, right] [c', r'] (by rw [hab]; simp) hk' rfl hrw' hin.nodup
   refine ⟨_, false, _, _,
-    reb_borrowR P _ i index child right c' r' sm hR hright (by rw [count_eq]; exact hRc) hadopt hsm,
+    reb_borrowR P _ i index child right c' r' sm hR hright (by rw [count_eqD]; exact hRc) hadopt hsm,
     rfl, hW, ?_, by simp, ?_, ?_, Or.inl ⟨rfl, by simp⟩⟩
   · intro x hx
     simp only [List.mem_cons, List.not_mem_nil, or_false] at hx
@@ -229,7 +229,7 @@ theorem rebalance_mergeR (P : Params K) (o : Nat) {d : Nat} (i : Inner K (Node K
   obtain ⟨m, habs, hidm, hcm, hpm, hrw⟩ :=
     absorbRight_rw child right hin.cocc.par hro.par (hin.chain_window a b child right hab) hnd
   have hrc := hro.2.1
-  simp only [count_eq] at hRc hcm
+  simp only [count_eqD] at hRc hcm
   have hk' : deleteIdiom (i.kids.set index m) (index + 1) = a ++ [m] ++ b := by
     rw [hab, ← ha, form_set_pivot, form_delete_next]; simp
   have hrw' : Rw [Node.id child, Node.id right] [(Node.id m, shallow m)]
@@ -239,7 +239,7 @@ theorem rebalance_mergeR (P : Params K) (o : Nat) {d : Nat} (i : Inner K (Node K
     a b [child, right] [m] (by rw [hab]; simp) hk' rfl hrw' hin.nodup
   have hl1 := deleteIdiom_length i.runts (index + 1) hR
   refine ⟨_, _, _, _,
-    reb_mergeR P _ i index child right m hR hright (by rw [count_eq]; exact hRc) (by rw [count_eq]; omega) hL habs
+    reb_mergeR P _ i index child right m hR hright (by rw [count_eqD]; exact hRc) (by rw [count_eqD]; omega) hL habs
       (by omega),
     rfl, hW, ?_, by simp, ?_, ?_, Or.inr ⟨hl1, rfl⟩⟩
   · intro x hx
@@ -278,8 +278,8 @@ theorem rebalance_left (P : Params K) (hp : PadOk P) (o : Nat) {d : Nat} (i : In
   have hlc2 := hlo.2.1
   by_cases hLc : Node.count left > o / 2
   · obtain ⟨l', c', sm, hadopt, hsm, hidl, hidc, hcl', hcc', hpl, hpc, hrw⟩ :=
-      adoptFromLeft_rw P hp left child hlo.par hin.cocc.par (by omega) (by rw [count_eq]; omega) hnd
-    simp only [count_eq] at hLc hcl' hcc'
+      adoptFromLeft_rw P hp left child hlo.par hin.cocc.par (by omega) (by rw [count_eqD]; omega) hnd
+    simp only [count_eqD] at hLc hcl' hcc'
     have hk' : (i.kids.set (j + 1 - 1) l').set (j + 1) c' = a ++ [l', c'] ++ b := by
       rw [Nat.add_sub_cancel, hab, ← ha, form_set_pivot, form_set_next]; simp
     have hrw' : Rw [Node.id left, Node.id child] [(Node.id l', shallow l'), (Node.id c', shallow c')]
@@ -288,7 +288,7 @@ theorem rebalance_left (P : Params K) (hp : PadOk P) (o : Nat) {d : Nat} (i : In
       (Inner.mk i.id (i.runts.set (j + 1) sm) ((i.kids.set (j + 1 - 1) l').set (j + 1) c'))
       a b [left, child] [l', c'] (by rw [hab]; simp) hk' rfl hrw' hin.nodup
     refine ⟨_, false, _, _,
-      reb_borrowL P _ i (j + 1) child left l' c' sm hnoR hL (by simpa using hleft) (by rw [count_eq]; exact hLc)
+      reb_borrowL P _ i (j + 1) child left l' c' sm hnoR hL (by simpa using hleft) (by rw [count_eqD]; exact hLc)
         hadopt hsm (by omega),
       rfl, hW, ?_, by simp, ?_, ?_, Or.inl ⟨rfl, by simp⟩⟩
     · intro x hx
@@ -309,7 +309,7 @@ theorem rebalance_left (P : Params K) (hp : PadOk P) (o : Nat) {d : Nat} (i : In
       exact hp
   · obtain ⟨m, habs, hidm, hcm, hpm, hrw⟩ :=
       absorbRight_rw left child hlo.par hin.cocc.par (hin.chain_window a b left child hab) hnd
-    simp only [count_eq] at hLc hcm
+    simp only [count_eqD] at hLc hcm
     have hk' : deleteIdiom (i.kids.set (j + 1 - 1) m) (j + 1) = a ++ [m] ++ b := by
       rw [Nat.add_sub_cancel, hab, ← ha, form_set_pivot, form_delete_next]; simp
     have hrw' : Rw [Node.id left, Node.id child] [(Node.id m, shallow m)]
@@ -319,8 +319,8 @@ theorem rebalance_left (P : Params K) (hp : PadOk P) (o : Nat) {d : Nat} (i : In
       a b [left, child] [m] (by rw [hab]; simp) hk' rfl hrw' hin.nodup
     have hl1 := deleteIdiom_length i.runts (j + 1) (by omega)
     refine ⟨_, _, _, _,
-      reb_mergeL P _ i (j + 1) child left m hnoR hL (by simpa using hleft) (by rw [count_eq]; omega)
-        (by rw [count_eq]; omega) habs (by omega) (by omega),
+      reb_mergeL P _ i (j + 1) child left m hnoR hL (by simpa using hleft) (by rw [count_eqD]; omega)
+        (by rw [count_eqD]; omega) habs (by omega) (by omega),
       rfl, hW, ?_, by simp, ?_, ?_, Or.inr ⟨hl1, rfl⟩⟩
     · intro x hx
       simp only [List.mem_cons, List.not_mem_nil, or_false] at hx
